@@ -268,6 +268,42 @@ impl Track {
     pub fn t_outer(&self) -> f64 {
         self.t_outer
     }
+    /// Verification hook: a track from explicit helix parameters
+    /// `[x0, y0, z0, r, phi0, h]` (meters and radians).
+    #[cfg(alpha_g_verif)]
+    pub fn verif_new(params: [f64; 6], t_inner: f64, t_outer: f64) -> Self {
+        Track {
+            helix: Helix {
+                x0: Length::new::<meter>(params[0]),
+                y0: Length::new::<meter>(params[1]),
+                z0: Length::new::<meter>(params[2]),
+                r: Length::new::<meter>(params[3]),
+                phi0: Angle::new::<radian>(params[4]),
+                h: Length::new::<meter>(params[5]),
+            },
+            t_inner,
+            t_outer,
+        }
+    }
+    /// Verification hook: the helix parameters `[x0, y0, z0, r, phi0, h]`
+    /// (meters and radians).
+    #[cfg(alpha_g_verif)]
+    pub fn verif_params(&self) -> [f64; 6] {
+        [
+            self.helix.x0.get::<meter>(),
+            self.helix.y0.get::<meter>(),
+            self.helix.z0.get::<meter>(),
+            self.helix.r.get::<meter>(),
+            self.helix.phi0.get::<radian>(),
+            self.helix.h.get::<meter>(),
+        ]
+    }
+    /// Verification hook: the private closest-point routine with the
+    /// settings used by the fits.
+    #[cfg(alpha_g_verif)]
+    pub fn verif_closest_t(&self, p: SpacePoint) -> f64 {
+        self.helix.closest_t(p, f64::EPSILON, 20)
+    }
 }
 
 /// The error type returned when conversion from a [`Cluster`] to a [`Track`]
